@@ -690,6 +690,52 @@ pub mod verif_hooks_addr {
         CustomAddr::from_parts(key % 5, &key.to_be_bytes()[..(1 + key as usize % 8)])
     }
 
+    /// Where a datagram of a synthetic receive batch comes from.
+    #[derive(Debug, Clone, Copy)]
+    pub enum Src {
+        /// Via relay, from the (relay url, endpoint id) with this key index.
+        Relay(u64),
+        /// Via a custom transport, from the custom address with this key index.
+        Custom(u64),
+        /// From a plain IP address.
+        Ip(SocketAddr),
+    }
+
+    /// Runs the socket's real receive-side address labelling (`Socket::process_datagrams`) of
+    /// `ep` on a synthetic batch and returns, per datagram, the labelled socket address and
+    /// its translation back (`relay:<key index>`, `custom:<key index>`, `ip`, `relay:?`, …).
+    pub fn label_batch(ep: &crate::Endpoint, srcs: &[Src]) -> Vec<(SocketAddr, String)> {
+        let sock = ep.verif_sock();
+        let addrs: Vec<transports::Addr> = srcs
+            .iter()
+            .map(|s| match s {
+                Src::Relay(k) => {
+                    let (u, id) = relay_key(*k);
+                    transports::Addr::Relay(u, id)
+                }
+                Src::Custom(k) => transports::Addr::Custom(custom_key(*k)),
+                Src::Ip(a) => transports::Addr::Ip(*a),
+            })
+            .collect();
+        sock.verif_label_batch(&addrs)
+            .into_iter()
+            .map(|(a, t)| {
+                let r = match t {
+                    transports::Addr::Ip(_) => "ip".to_string(),
+                    transports::Addr::Relay(url, id) => (0..64u64)
+                        .find(|k| relay_key(*k) == (url.clone(), id))
+                        .map(|k| format!("relay:{k}"))
+                        .unwrap_or("relay:?".into()),
+                    transports::Addr::Custom(c) => (0..64u64)
+                        .find(|k| custom_key(*k) == c)
+                        .map(|k| format!("custom:{k}"))
+                        .unwrap_or("custom:?".into()),
+                };
+                (a, r)
+            })
+            .collect()
+    }
+
     impl TypedMaps {
         /// `AddrMap::get` on the given table for the key with index `key`.
         pub fn get(&self, table: Table, key: u64) -> SocketAddr {
